@@ -11,18 +11,20 @@ structure Built (atoms : List (Nat × Atom)) (A : Auto) (P : Pack) (ord : List N
   order : OrderOK A ord
   i4 : I4 A P ord
 
-theorem compile_built {atoms : List (Nat × Atom)} (hne : ∀ a ∈ atoms, a.2.bytes ≠ []) :
+theorem compile_built {atoms : List (Nat × Atom)} (hbt : ∀ a ∈ atoms, a.2.bytes = [] → a.2.backtrack = 0) :
     ∃ A ord, Built atoms A (compile (addAtoms atoms)) ord := by
   have h1 := addAtoms_P1 atoms
-  obtain ⟨s2, h2⟩ := createFailureLinks_I2 h1 hne
-  have h2' : I2 (createFailureLinks (addAtoms atoms)) atoms (allLk (createFailureLinks (addAtoms atoms))) := by
+  obtain ⟨s2, h2⟩ := createFailureLinks_I2 h1 hbt
+  have h2' : I2 (createFailureLinks (addAtoms atoms)) atoms (allLk (createFailureLinks (addAtoms atoms)))
+      (allLk (createFailureLinks (addAtoms atoms))) := by
     apply h2.congr_lk
-    intro x; unfold allLk; rw [s2.1]
+    · intro x; unfold allLk; rw [s2.1]
+    · intro x; unfold allLk; rw [s2.1]
   obtain ⟨s3, h3⟩ := optimizeFailureLinks_I3 (I3_of_I2 h2')
   have hz : ((optimizeFailureLinks (createFailureLinks (addAtoms atoms))).st 0).slot = 0 := by
     rw [optimizeFailureLinks_slots _ 0, createFailureLinks_slots _ 0]; exact h1.root_slot
-  obtain ⟨ord, ho, h4⟩ := buildTransitionTable_I4 h3.ms.trie h3 hz
-  exact ⟨_, ord, ⟨h3.ms.trie, h3, ho, h4⟩⟩
+  obtain ⟨ord, ho, h4⟩ := buildTransitionTable_I4 h3.mf.trie h3 hz
+  exact ⟨_, ord, ⟨h3.mf.trie, h3, ho, h4⟩⟩
 
 variable {atoms : List (Nat × Atom)} {A : Auto} {P : Pack} {ord : List Nat}
 
@@ -165,20 +167,30 @@ theorem entries_spec (T : Tables) : ∀ (l : List Nat) (r fuel : Nat), ChainSeg 
       exact ih _ f hc' (by simpa using hl)
 
 theorem Built.ref_le (h : Built atoms A P ord) (x : Nat) (hx : x < A.states.size) : (A.st x).matchesRef ≤ atoms.length := by
-  have hlk : x = 0 ∨ allLk A x := by
-    rcases Nat.eq_zero_or_pos x with e | e
-    · exact Or.inl e
-    · exact Or.inr ⟨e, hx⟩
-  obtain ⟨l, hc, _, _⟩ := h.i3.ms.full_chain _ x rfl hlk
-  cases l with
-  | nil => simp only [ChainSeg] at hc; omega
-  | cons e l => simp only [ChainSeg] at hc; have := h.i3.ms.pool_size; omega
+  have hc := h.i3.mf.chain x hx
+  cases hl : specList atoms (A.st x).path with
+  | nil => rw [hl] at hc; simp only [ChainSeg] at hc; omega
+  | cons e l => rw [hl] at hc; simp only [ChainSeg] at hc; have := h.i3.mf.pool_size; omega
+
+/-- the match list of a state, as the scanner walks it -/
+theorem Built.entries_eq (h : Built atoms A P ord) (hlen : atoms.length < 2 ^ 32) (x : Nat) (hx : x < A.states.size) :
+    entries (tablesOf P) (fuelOf (tablesOf P)) ((tablesOf P).m.getD (P.A.st x).slot 0).toNat =
+      (specList atoms (A.st x).path).map fun e => ((A.pool.getD e (0, 0, 0)).1, (A.pool.getD e (0, 0, 0)).2.1) := by
+  have hm : ((tablesOf P).m.getD (P.A.st x).slot 0).toNat = (A.st x).matchesRef := by
+    show (P.m.getD (P.A.st x).slot 0).toNat = _
+    rw [(h.i4.hdr x (h.hdr_all x hx) hx).2.2.2.1, UInt32.toNat_ofNat']
+    have := h.ref_le x hx
+    exact Nat.mod_eq_of_lt (by omega)
+  have hpool : (tablesOf P).pool = A.pool := h.i4.pool_eq
+  rw [hm, entries_spec (tablesOf P) _ _ _ (by rw [hpool]; exact h.i3.mf.chain x hx) (by
+    have := specList_length_le atoms (A.st x).path
+    unfold fuelOf; rw [hpool, h.i3.mf.pool_size]; omega), hpool]
 
 /-- the certificate facts for the built tables -/
 theorem Built.cert (h : Built atoms A P ord) (hok : P.ok = true) (hlen : atoms.length < 2 ^ 32) :
     Cert (tablesOf P) atoms (slotPaths A P) := by
   have hT := h.trie
-  have hms := h.i3.ms
+  have hms := h.i3.mf
   constructor
   · exact mem_slotPaths.mpr ⟨0, hT.size_pos, by rw [h.i4.root_slot, hT.root_path]⟩
   · intro sp hsp
@@ -203,36 +215,68 @@ theorem Built.cert (h : Built atoms A P ord) (hok : P.ok = true) (hlen : atoms.l
   · intro sp hsp e
     obtain ⟨x, hx, rfl⟩ := mem_slotPaths.mp hsp
     simp only
-    have hlk : x = 0 ∨ allLk A x := by
-      rcases Nat.eq_zero_or_pos x with e | e
-      · exact Or.inl e
-      · exact Or.inr ⟨e, hx⟩
-    obtain ⟨l, hc, hnd, hmem⟩ := hms.full_chain _ x rfl hlk
-    have hll := hms.full_chain_length hnd hmem
-    have hm : ((tablesOf P).m.getD (P.A.st x).slot 0).toNat = (A.st x).matchesRef := by
-      show (P.m.getD (P.A.st x).slot 0).toNat = _
-      rw [(h.i4.hdr x (h.hdr_all x hx) hx).2.2.2.1, UInt32.toNat_ofNat']
-      have := h.ref_le x hx
-      exact Nat.mod_eq_of_lt (by omega)
-    have hpool : (tablesOf P).pool = A.pool := h.i4.pool_eq
-    rw [hm, entries_spec (tablesOf P) l _ _ (by rw [hpool]; exact hc) (by
-      unfold fuelOf; rw [hpool, hms.pool_size]; omega)]
-    rw [hpool]
+    rw [h.entries_eq hlen x hx]
     simp only [List.mem_map, List.mem_filter, List.isSuffixOf_iff_suffix]
     constructor
     · rintro ⟨i, hi, rfl⟩
-      obtain ⟨a, ha, hs⟩ := (hmem i).mp hi
+      obtain ⟨a, ha, hs⟩ := (mem_specList _).mp hi
       obtain ⟨nx, hnx⟩ := hms.pool_info i a ha
       refine ⟨a, ⟨List.mem_of_getElem? ha, hs⟩, ?_⟩
       simp [Array.getD_eq_getD_getElem?, hnx]
     · rintro ⟨a, ⟨ha, hs⟩, rfl⟩
       obtain ⟨i, hi⟩ := List.getElem?_of_mem ha
       obtain ⟨nx, hnx⟩ := hms.pool_info i a hi
-      refine ⟨i, (hmem i).mpr ⟨a, hi, hs⟩, ?_⟩
+      refine ⟨i, (mem_specList _).mpr ⟨a, hi, hs⟩, ?_⟩
       simp [Array.getD_eq_getD_getElem?, hnx]
   · intro sa hsa
     rw [slotPaths_snd]
     obtain ⟨s, hs, hp⟩ := hms.atoms_in sa hsa
     exact mem_pathsOf.mpr ⟨s, hs, hp⟩
+
+theorem filterMap_congr_mem {α β : Type} (l : List α) (f g : α → Option β) (h : ∀ x ∈ l, f x = g x) :
+    l.filterMap f = l.filterMap g := by
+  induction l with
+  | nil => rfl
+  | cons a l ih =>
+    simp only [List.filterMap_cons, h a List.mem_cons_self, ih (fun x hx => h x (List.mem_cons_of_mem _ hx))]
+
+/-- what the scanner reports in the state of `x` at position `i`: the specification list, filtered by the backtrack guard -/
+theorem Built.report_eq (h : Built atoms A P ord) (hlen : atoms.length < 2 ^ 32) (x : Nat) (hx : x < A.states.size) (i : Nat) :
+    report (tablesOf P) (P.A.st x).slot i = (specList atoms (A.st x).path).filterMap (candOf atoms i) := by
+  unfold report
+  rw [h.entries_eq hlen x hx, List.filterMap_map]
+  apply filterMap_congr_mem
+  intro e he
+  obtain ⟨a, ha, _⟩ := (mem_specList _).mp he
+  obtain ⟨nx, hnx⟩ := h.i3.mf.pool_info e a ha
+  simp only [Function.comp, candOf, ha, Array.getD_eq_getD_getElem?, hnx, Option.getD_some]
+
+/-- **the scan of the built tables, as a SEQUENCE**: from the state of the longest path-suffix of what has been read -/
+theorem Built.scanFrom_eq (h : Built atoms A P ord) (hok : P.ok = true) (hlen : atoms.length < 2 ^ 32) :
+    ∀ (rest pre : Bytes) (x : Nat), x < A.states.size → (A.st x).path = lsuf (pathsOf A) pre →
+    scanFrom (tablesOf P) rest pre.length (P.A.st x).slot =
+      (List.range (rest.length + 1)).flatMap fun k => expectedSeq atoms (pre ++ rest.take k) := by
+  have hT := h.trie
+  have hin := atoms_in_paths h.i3.mf.atoms_in
+  have hrep : ∀ (pre : Bytes) (x : Nat), x < A.states.size → (A.st x).path = lsuf (pathsOf A) pre →
+      report (tablesOf P) (P.A.st x).slot pre.length = expectedSeq atoms pre := by
+    intro pre x hx hp
+    rw [h.report_eq hlen x hx, hp, ← specList_lsuf hin]; rfl
+  intro rest
+  induction rest with
+  | nil =>
+    intro pre x hx hp
+    simp [scanFrom, hrep pre x hx hp]
+  | cons c t ih =>
+    intro pre x hx hp
+    simp only [scanFrom]
+    obtain ⟨y, hy1, hy2, hy3⟩ := h.delta_spec hok c (fuelOf (tablesOf P)) x hx (h.fuel x hx)
+    rw [hy2, hrep pre x hx hp]
+    have hyp : (A.st y).path = lsuf (pathsOf A) (pre ++ [c]) := by
+      rw [hy3, hp]; exact (lsuf_step _ hT.nil_mem hT.prefixClosed pre c).symm
+    have := ih (pre ++ [c]) y hy1 hyp
+    simp only [List.length_append, List.length_singleton] at this
+    rw [this, List.length_cons, List.range_succ_eq_map (n := t.length + 1), List.flatMap_cons, List.flatMap_map]
+    simp [List.append_assoc]
 
 end YaraModel.AC.Build
